@@ -69,6 +69,13 @@ def definitions(tier: str, seed: int, want: dict[str, int]) -> list[dict]:
         for i, ast in enumerate(fam):
             defs.append({"name": f"bunched{i}", "kind": "bunched", "ast": ast,
                          "tags": sorted(gen.tags_of(ast) | {"beyond-F", "bunched"})})
+    if want.get("loop-families", 0):
+        for i, ast in enumerate(gen.loop_start_block_family()):
+            defs.append({"name": f"lsb{i}", "kind": "loop-families", "ast": ast,
+                         "tags": sorted(gen.tags_of(ast) | {"beyond-F", "loop-starts-with-block"})})
+        for i, ast in enumerate(gen.loop_end_nested_fork_family()):
+            defs.append({"name": f"lenf{i}", "kind": "loop-families", "ast": ast,
+                         "tags": sorted(gen.tags_of(ast) | {"F_edge", "loop-ends-in-nested-fork"})})
     if want.get("start-block", 0):
         for i, ast in enumerate(gen.break_xor_start_block_family()):
             defs.append({"name": f"bxsb{i}", "kind": "start-block", "ast": ast,
